@@ -74,6 +74,13 @@ def _same(ctx, label, lhs, rhs, hyps=(), tol=0):
         return
     for i, (x, y) in enumerate(zip(a, b)):
         lab = f"{label}[{i}]" if len(a) > 1 else label
+        if any(isinstance(v, float) and math.isnan(v) for v in (x, y)):
+            ctx.check(lab + (" [as positive reals]" if label.startswith("Log:") else ""), False, f"not a number: {x!r} vs {y!r}")
+            continue
+        if label.startswith("Log:") and not (isinstance(x, S.LogNum) or isinstance(y, S.LogNum)) and not ctx.symbolic:
+            # concrete replay of the log-domain obligations: compare the positive reals, same label as the symbolic run
+            ctx.eq_terms(lab + " [as positive reals]", _log_to_real(x), _log_to_real(y), hyps=hyps, tol=max(tol, 1e-9))
+            continue
         if isinstance(x, S.LogNum) or isinstance(y, S.LogNum):
             T = ctx.D.term
             ctx.eq_terms(lab + " [as positive reals]", T(_log_to_real(x)), T(_log_to_real(y)), hyps=hyps, tol=tol)
@@ -149,7 +156,8 @@ def laws(ctx):
         if r1 is not None and r2 is not None:
             _same(ctx, f"{T}: {n1}*{n2} = {n2}*{n1}", r1, r2, tol=tol)
     chunk_i, chunk_n = P.get("chunk", (0, 1))
-    for ti, ((n1, a), (n2, b), (n3, c)) in enumerate(itertools.product(pool, repeat=3)):
+    tpool = [(n, v) for n, v in pool if not P.get("triples_without_fresh") or not n.endswith("'")]
+    for ti, ((n1, a), (n2, b), (n3, c)) in enumerate(itertools.product(tpool, repeat=3)):
         if ti % chunk_n != chunk_i:
             continue
         tag = f"({n1},{n2},{n3})"
@@ -224,9 +232,12 @@ def laws(ctx):
 def jobs(tier, seed):
     out = []
     for T in TYPES:
-        n = 5 if T in ("MaxTimes", "MaxPlus", "Log") else 1
+        n = 5 if T in ("MaxTimes", "MaxPlus") else (12 if T == "Log" else 1)
         for i in range(n):
-            out.append(dict(case="laws", params=dict(type=T, nsym=3, chunk=(i, n)), hashseed=0))
+            prm = dict(type=T, nsym=3, chunk=(i, n))
+            if T == "Log" and tier == "quick":
+                prm["triples_without_fresh"] = True  # fresh zero'/one' take part in the unary and binary laws only
+            out.append(dict(case="laws", params=prm, hashseed=0, timeout=1500))
     out.append(dict(case="laws", params=dict(type="Real", nsym=2, canary=True), hashseed=0))
     return out
 
